@@ -9,7 +9,7 @@ def run(ctx: Ctx) -> int:
     from lib import e4_corpus
     from lib.e4_region import tags
     nfixed = len(e4_corpus.corpus("c03", n, ctx.seed)) - n       # fixed programs + array-flavoured generated ones, all outside the regions
-    jobs = e4_check.jobs_for(ctx, "c03", n, batch=1, timeout=ctx.pick(240, 1200), total=n + nfixed, single_upto=12)
+    jobs = e4_check.jobs_for(ctx, "c03", n, batch=1, timeout=ctx.pick(150, 1200), total=n + nfixed, single_upto=12)
     want = ctx.pick(3, 12)
     have = len(e4_corpus.corpus("c03", want, ctx.seed, "hoist-order"))
     jobs += e4_check.jobs_for(ctx, "c03", want, batch=1, timeout=ctx.pick(120, 600), region="hoist-order", key=KEY_H, total=have)
@@ -27,10 +27,10 @@ def run(ctx: Ctx) -> int:
                          "field mutation of structs (rejected by /repo), nat arithmetic at HUGR level", "programs larger than the generator's depth bound", "programs inside the regions of the known findings (probed separately)"]
     ctx.assumptions = ["edge convention successors[1] = true branch, successors[0] = false branch", "models of the iterator protocol nodes (MakeIter / IterNext) in lib/e4.py"]
     # stage 2 (E5): the same programs through the *checked* CFGs of the real front end (operator resolution, coercions, iterator protocol, 64-bit arithmetic)
-    jobs += e4_check.jobs_for(ctx, "c03", n, batch=1, timeout=ctx.pick(300, 1500), total=n + nfixed, harness="harness/E5_equiv.py", fn="h_equiv5", single_upto=12,
+    jobs += e4_check.jobs_for(ctx, "c03", n, batch=1, timeout=ctx.pick(200, 1500), total=n + nfixed, harness="harness/E5_equiv.py", fn="h_equiv5", single_upto=12,
                               upto=ctx.pick(36, 500))
     # stage 3 (E7): the same programs through the HUGR that /repo's back end emits for them (lib/e7.py)
-    jobs += e4_check.jobs_for(ctx, "c03", n, batch=1, timeout=ctx.pick(300, 1500), total=n + nfixed, harness="harness/E7_equiv.py", fn="h_equiv7", single_upto=12,
+    jobs += e4_check.jobs_for(ctx, "c03", n, batch=1, timeout=ctx.pick(200, 1500), total=n + nfixed, harness="harness/E7_equiv.py", fn="h_equiv7", single_upto=12,
                               upto=ctx.pick(36, 400))
     ctx.functions_encoded.append("stage 3: compiler/cfg_compiler.py, expr_compiler.py, stmt_compiler.py, func_compiler.py, core.py (CompilerContext.compile, track_hugr_side_effects, "
                                  "monomorphization) and the std compilers reached by the programs: the emitted HUGR is interpreted by lib/e7.py")
